@@ -84,6 +84,8 @@ func FullAlphabet(c *Cast) func(w *World) []Event {
 		add("Submit(R1,dep1,0x)", "submit-dep/0x", func(w *World) sdk.Msg { return MsgSubmit(c.R1.Acc, c.Dep1, "0x"+depVal) })
 		add("Submit(R1,dep1,junk32)", "submit-dep/junk", func(w *World) sdk.Msg { return MsgSubmit(c.R1.Acc, c.Dep1, U256(1)) })
 		add("Submit(R2,dep1,valid)", "submit-dep/valid", func(w *World) sdk.Msg { return MsgSubmit(c.R2.Acc, c.Dep1, depVal) })
+		depVal2 := DepositValue(c.Payer.Acc.String(), new(big.Int).Mul(big.NewInt(6_000_000), big.NewInt(1e12)), new(big.Int).Mul(big.NewInt(1_000), big.NewInt(1e12)))
+		add("Submit(R2,dep1,valid2)", "submit-dep/valid2", func(w *World) sdk.Msg { return MsgSubmit(c.R2.Acc, c.Dep1, depVal2) })
 		add("Submit(R1,wd1,std)", "submit-wd", func(w *World) sdk.Msg { return MsgSubmit(c.R1.Acc, c.Wd1, U256(1)) })
 		add("Submit(Payer,cyc,std)", "submit/nonreporter", func(w *World) sdk.Msg {
 			if q := cyc(w); q != nil {
@@ -135,6 +137,10 @@ func FullAlphabet(c *Cast) func(w *World) []Event {
 		add("RegisterSpec(newq,median,w=0)", "register/w0", func(w *World) sdk.Msg { return MsgRegisterSpec(c.Payer.Acc, "newq", Spec("uint256", "weighted-median", 0)) })
 		add("RegisterSpec(newq,mode,string,w=1)", "register/string", func(w *World) sdk.Msg { return MsgRegisterSpec(c.Payer.Acc, "newq", Spec("string", "weighted-mode", 1)) })
 		add("RegisterSpec(MODEQ-again)", "register/dup", func(w *World) sdk.Msg { return MsgRegisterSpec(c.Payer.Acc, "MODEQ", Spec("uint256", "weighted-median", 9)) })
+		// the same registered name in other spellings: the guard and the store have to agree on what "the same" means
+		add("RegisterSpec(modeq-padded)", "register/dup", func(w *World) sdk.Msg { return MsgRegisterSpec(c.Payer.Acc, " "+ModeType+" ", Spec("uint256", "weighted-median", 9)) })
+		add("RegisterSpec(modeq-tab-newline)", "register/dup", func(w *World) sdk.Msg { return MsgRegisterSpec(c.Payer.Acc, "\t"+ModeType+"\n", Spec("string", "weighted-mode", 9)) })
+		add("RegisterSpec(SpotPrice-padded)", "register/dup", func(w *World) sdk.Msg { return MsgRegisterSpec(c.Payer.Acc, "SpotPrice ", Spec("string", "weighted-mode", 9)) })
 		add("RegisterSpec(newq,w=max+1)", "register/overmax", func(w *World) sdk.Msg { return MsgRegisterSpec(c.Payer.Acc, "newq", Spec("uint256", "weighted-median", 1<<40)) })
 		add("UpdateSpec(gov,modeq,w=0)", "updatespec/w0", func(w *World) sdk.Msg { return MsgUpdateSpec(w.Gov, ModeType, Spec("uint256", "weighted-mode", 0)) })
 		add("UpdateSpec(gov,modeq,w=5)", "updatespec/w5", func(w *World) sdk.Msg { return MsgUpdateSpec(w.Gov, ModeType, Spec("uint256", "weighted-mode", 5)) })
@@ -180,6 +186,12 @@ func FullAlphabet(c *Cast) func(w *World) []Event {
 		// ---- staking
 		add("Delegate(R1,V1,10)", "delegate", func(w *World) sdk.Msg { return MsgDelegate(c.R1.Acc, V[0], 10*TRB) })
 		add("Delegate(S1,V2,5)", "delegate/2ndval", func(w *World) sdk.Msg { return MsgDelegate(c.S1.Acc, V[1], 5*TRB) })
+		// S2 already delegates to V2 and V3: in a world with a fourth validator this is its third delegation
+		add("Delegate(S2,Vlast,10)", "delegate/extra-validator", func(w *World) sdk.Msg { return MsgDelegate(c.S2.Acc, V[len(V)-1], 10*TRB) })
+		// stakes with awkward residues: proportional splits of round amounts over them carry fractions above one half in most entries
+		add("Delegate(R1,V1,800loya)", "delegate/residue", func(w *World) sdk.Msg { return MsgDelegate(c.R1.Acc, V[0], 800) })
+		add("Delegate(S1,V1,800loya)", "delegate/residue", func(w *World) sdk.Msg { return MsgDelegate(c.S1.Acc, V[0], 800) })
+		add("Delegate(S3,V2,400loya)", "delegate/residue", func(w *World) sdk.Msg { return MsgDelegate(c.S3.Acc, V[1], 400) })
 		add("Delegate(Payer,V3,150)", "delegate/big", func(w *World) sdk.Msg { return MsgDelegate(c.Payer.Acc, V[len(V)-1], 150*TRB) })
 		add("Undelegate(R1,V1,all)", "undelegate/all", func(w *World) sdk.Msg { return MsgUndelegate(c.R1.Acc, V[0], 100*TRB) })
 		add("Undelegate(R1,V1,half)", "undelegate/part", func(w *World) sdk.Msg { return MsgUndelegate(c.R1.Acc, V[0], 50*TRB) })
@@ -234,6 +246,15 @@ func FullAlphabet(c *Cast) func(w *World) []Event {
 				return nil
 			}
 			return MsgPropose(c.Tipper.Acc, *r, disputetypes.Warning, feeOf(r, disputetypes.Warning), false)
+		})
+		// the last stored report of R1: with reports on several queries in one block it is another query than "R1rep"
+		add("Propose(Payer,R1lastrep,warning,full)", "propose/warning-full-last", func(w *World) sdk.Msg {
+			l := w.ReportsBy(c.R1.Acc)
+			if len(l) < 2 {
+				return nil
+			}
+			r := &l[len(l)-1]
+			return MsgPropose(c.Payer.Acc, *r, disputetypes.Warning, feeOf(r, disputetypes.Warning), false)
 		})
 		add("Propose(Payer,R1rep,warning,half)", "propose/warning-half", func(w *World) sdk.Msg {
 			r := firstReportBy(w, c.R1.Acc)
@@ -321,6 +342,18 @@ func FullAlphabet(c *Cast) func(w *World) []Event {
 			}
 			return nil
 		})
+		add("AddFee(S1,last,1)", "addfee/1", func(w *World) sdk.Msg {
+			if id := lastDisputeID(w); id != 0 {
+				return MsgAddFee(c.S1.Acc, id, 1, false)
+			}
+			return nil
+		})
+		add("AddFee(S3,last,3)", "addfee/1", func(w *World) sdk.Msg {
+			if id := lastDisputeID(w); id != 0 {
+				return MsgAddFee(c.S3.Acc, id, 3, false)
+			}
+			return nil
+		})
 		add("AddFee(R2,last,rest,frombond)", "addfee/frombond", func(w *World) sdk.Msg {
 			if id := lastDisputeID(w); id != 0 {
 				return MsgAddFee(c.R2.Acc, id, 1_000*TRB, true)
@@ -372,7 +405,7 @@ func FullAlphabet(c *Cast) func(w *World) []Event {
 		for _, p := range []struct {
 			n string
 			u *User
-		}{{"Payer", c.Payer}, {"R2", c.R2}, {"Tipper", c.Tipper}} {
+		}{{"Payer", c.Payer}, {"R2", c.R2}, {"Tipper", c.Tipper}, {"S1", c.S1}, {"S3", c.S3}} {
 			p := p
 			add("FeeRefund("+p.n+")", "feerefund", func(w *World) sdk.Msg {
 				if id := lastDisputeID(w); id != 0 {
@@ -410,6 +443,14 @@ func FullAlphabet(c *Cast) func(w *World) []Event {
 		add("ClaimDeposits(Payer,[1],[0])", "claim/1", func(w *World) sdk.Msg { return MsgClaimDeposits(c.Payer.Acc, []uint64{1}, []uint64{0}) })
 		add("ClaimDeposits(Payer,[1,1],[0,0])", "claim/dup", func(w *World) sdk.Msg { return MsgClaimDeposits(c.Payer.Acc, []uint64{1, 1}, []uint64{0, 0}) })
 		add("ClaimDeposits(Payer,[1],[])", "claim/mismatch", func(w *World) sdk.Msg { return MsgClaimDeposits(c.Payer.Acc, []uint64{1}, nil) })
+		add("ClaimDeposits(Payer,[before1],[0])", "claim/unknown", func(w *World) sdk.Msg {
+			b, _ := DepositIDsAround(1)
+			return MsgClaimDeposits(c.Payer.Acc, []uint64{b}, []uint64{0})
+		})
+		add("ClaimDeposits(Payer,[after1],[0])", "claim/unknown", func(w *World) sdk.Msg {
+			_, a := DepositIDsAround(1)
+			return MsgClaimDeposits(c.Payer.Acc, []uint64{a}, []uint64{0})
+		})
 		add("ClaimDeposits(Payer,[2],[0])", "claim/unknown", func(w *World) sdk.Msg { return MsgClaimDeposits(c.Payer.Acc, []uint64{2}, []uint64{0}) })
 		add("RequestAttest(eth,last)", "attest/last", func(w *World) sdk.Msg {
 			for _, a := range w.Aggregates() {
